@@ -92,12 +92,13 @@ theorem owner_unique_authorised (p : Params) (t : Nat) (ops : List Op) (op : Op)
   name_change (reachable_inv p t ops) h hd
 
 /-- corollary: the owner of an unexpired name changes only by the owner's transfer, the owner's
-    acceptance of a buy order, or a sale through the name's open sell order; the owner of an
+    acceptance of a buy order, or a sale through the open sell order that this same owner placed
+    (`seller` is a ghost field of the model recording who placed the order); the owner of an
     expired name only by a registration after the grace period -/
 theorem owner_change_authorised {s s' : State} {op : Op} (hI : Inv s) (h : exec s op = .ok s') {n : Name}
     {d d' : DymName} (hd : getName s n = some d) (hd' : getName s' n = some d') (hne : d'.owner ≠ d.owner) :
     (d.expired s.now = false ∧
-        (op.actor = d.owner ∨ (AMap.get s.nameSO n).isSome = true)) ∨
+        (op.actor = d.owner ∨ ∃ so, AMap.get s.nameSO n = some so ∧ so.seller = d.owner)) ∨
     (d.expired s.now = true ∧ d.expireAt + s.p.grace ≤ s.now ∧ op.actor = d'.owner) := by
   obtain ⟨d'', hd'', hc⟩ := name_change hI h hd
   rw [hd'] at hd''; injection hd'' with hd''; subst hd''
@@ -111,8 +112,8 @@ theorem owner_change_authorised {s s' : State} {op : Op} (hI : Inv s) (h : exec 
     | setController c he => exact absurd rfl hne
     | updateResolve ch e p v cfgs he hcf => exact absurd rfl hne
     | updateDetails c cl cfgs contact he hcf => exact absurd rfl hne
-    | purchase a offer so hso hse he hna => exact Or.inl ⟨he, Or.inr (by simp [hso])⟩
-    | complete a so b hso hb he ha => exact Or.inl ⟨he, Or.inr (by simp [hso])⟩
+    | purchase a offer so hso hsel hse he hna => exact Or.inl ⟨he, Or.inr ⟨so, hso, hsel⟩⟩
+    | complete a so b hso hsel hb he ha => exact Or.inl ⟨he, Or.inr ⟨so, hso, hsel⟩⟩
     | accept pfx id m bo hg hna hn he hso hb => exact Or.inl ⟨he, Or.inl rfl⟩
 
 /-- corollary: **nobody but the previous owner re-registers a name during the grace period** -/
@@ -143,8 +144,8 @@ theorem address_records_by_controller {s s' : State} {op : Op} (hI : Inv s) (h :
     | setController c he => exact absurd rfl hc
     | updateResolve ch e p v cfgs he hcf => exact Or.inl rfl
     | updateDetails c cl cfgs contact he hcf => exact Or.inl rfl
-    | purchase a offer so hso hse he hna => exact absurd ho hna
-    | complete a so b hso hb he ha =>
+    | purchase a offer so hso hsel hse he hna => exact absurd ho hna
+    | complete a so b hso hsel hb he ha =>
       simp only [cleared] at ho
       rcases ha with rfl | rfl
       · exact Or.inr rfl
